@@ -815,6 +815,7 @@ def oracle_steps(case, obs, names, hints, defaults, sig, call_ref):
     ops = case["ops"]
     failed = False
     prev_outs = None
+    last_ok = None
     for i, op in enumerate(ops):
         step = obs[1 + i]
         if i == 0:
@@ -861,6 +862,13 @@ def oracle_steps(case, obs, names, hints, defaults, sig, call_ref):
         if [c[2] for c in nobs[0]] != ref.view():
             return f"call-binding: {where} inputs {[c[2] for c in nobs[0]]} != {ref.view()}"
         outs = [c[2] for c in nobs[1]]
+        # the definition is a function of its arguments: a call made with the arguments of the latest
+        # call that returned must return the same value (also where the definition's value is not compared)
+        if ok:
+            if last_ok is not None and last_ok[0] == ref.view() and last_ok[1] != res[1]:
+                return (f"repeat-differs: {where} returned {res[1]} but the same arguments returned "
+                        f"{last_ok[1]} just before")
+            last_ok = (ref.view(), res[1])
         if failed:
             if ok:
                 return f"failed-node-ran: {where}"
